@@ -13,8 +13,9 @@ open Rivia Rivia.Spec Rivia.Str Rivia.Lemmas
 def skipOpen (r : Str) : Str := if r.head? = some '{' then r.tail else r
 def skipClose (r : Str) : Str := if r.head? = some '}' then r.tail else r
 
-/-- the part of one scanner iteration after the '$' (input `rest ≠ []`): finished with an error,
-    or continue on `(rest', acc')` -/
+/-- the part of one scanner iteration after the consumed '$' (`rest` may be empty: then the
+    variable name is empty and the step fails): finished with an error, or continue on
+    `(rest', acc')` -/
 def segVar (env : Env) (rest acc : Str) : Outcome Str ⊕ (Str × Str) :=
   if (skipOpen rest).takeWhile isVarChar = [] then .inl (.err .invalidExpansion)
   else match env ((skipOpen rest).takeWhile isVarChar) with
@@ -36,20 +37,24 @@ theorem segCont_match (env : Env) (f : Nat) (o : Option Str) (rest acc : Str) :
 
 theorem expandSeg_succ_cons (env : Env) (f : Nat) (c : Char) (r acc : Str) :
     expandSeg env (f + 1) (c :: r) acc =
-      if ((c :: r).dropWhile (· ≠ '$')).drop 1 = [] then .ok (acc ++ (c :: r).takeWhile (· ≠ '$'))
+      if (c :: r).dropWhile (· ≠ '$') = [] then .ok (acc ++ (c :: r).takeWhile (· ≠ '$'))
       else segCont env f (segVar env (((c :: r).dropWhile (· ≠ '$')).drop 1)
               (acc ++ (c :: r).takeWhile (· ≠ '$'))) := by
   rw [expandSeg]
-  · generalize ((c :: r).dropWhile (· ≠ '$')).drop 1 = rest
-    cases rest with
+  · generalize (c :: r).dropWhile (· ≠ '$') = d
+    cases d with
     | nil => rfl
     | cons x xs =>
       simp only [reduceCtorEq, if_false]
-      show (if (skipOpen (x :: xs)).takeWhile isVarChar = [] then _ else _) = _
+      show (if (skipOpen xs).takeWhile isVarChar = [] then _ else _) = _
       unfold segVar
-      by_cases hv : (skipOpen (x :: xs)).takeWhile isVarChar = []
-      · rw [if_pos hv, if_pos hv]; rfl
-      · rw [if_neg hv, if_neg hv]
+      by_cases hv : (skipOpen xs).takeWhile isVarChar = []
+      · rw [if_pos hv]
+        show _ = segCont env f (if (skipOpen xs).takeWhile isVarChar = [] then _ else _)
+        rw [if_pos hv]; rfl
+      · rw [if_neg hv]
+        show _ = segCont env f (if (skipOpen xs).takeWhile isVarChar = [] then _ else _)
+        rw [if_neg hv]
         exact segCont_match env f _ _ _
   · intro h; cases h
 
@@ -251,7 +256,7 @@ theorem seg_nil (env : Env) (acc : Str) : seg env [] acc = .ok acc := rfl
 
 theorem seg_cons (env : Env) (c : Char) (r acc : Str) :
     seg env (c :: r) acc =
-      if ((c :: r).dropWhile (· ≠ '$')).drop 1 = [] then .ok (acc ++ (c :: r).takeWhile (· ≠ '$'))
+      if (c :: r).dropWhile (· ≠ '$') = [] then .ok (acc ++ (c :: r).takeWhile (· ≠ '$'))
       else segK env (segVar env (((c :: r).dropWhile (· ≠ '$')).drop 1)
               (acc ++ (c :: r).takeWhile (· ≠ '$'))) := by
   rw [seg, expandSeg_succ_cons]
@@ -268,11 +273,11 @@ theorem seg_cons (env : Env) (c : Char) (r acc : Str) :
       exact seg_of_fuel env (by simp only [List.length_cons]; omega) _
 
 theorem seg_dollar (env : Env) (r acc : Str) :
-    seg env ('$' :: r) acc = if r = [] then .ok acc else segK env (segVar env r acc) := by
+    seg env ('$' :: r) acc = segK env (segVar env r acc) := by
   rw [seg_cons]
   have h1 : ('$' :: r).dropWhile (· ≠ '$') = '$' :: r := by simp
   have h2 : ('$' :: r).takeWhile (· ≠ '$') = [] := by simp
-  rw [h1, h2, List.append_nil]
+  rw [h1, h2, List.append_nil, if_neg (by simp)]
   rfl
 
 /-- the literal text before the first '$' is copied -/
@@ -287,7 +292,7 @@ theorem seg_lit (env : Env) (cs acc : Str) :
     | cons x xs =>
       have hx : x = '$' := by simpa using dropWhile_cons_head hd
       subst hx
-      rw [seg_dollar]
+      rw [seg_dollar, if_neg (by simp)]
       rfl
 
 /-! ### list splitting helpers -/
@@ -373,13 +378,13 @@ theorem segVar_eq {env : Env} {r name after : Str} (acc : Str) (hs : skipOpen r 
   unfold segVar
   rw [hs, h1, h2, if_neg hn]
 
-theorem seg_var_step {env : Env} {r name after : Str} {toks' : List Tok} (acc : Str) (hr : r ≠ [])
+theorem seg_var_step {env : Env} {r name after : Str} {toks' : List Tok} (acc : Str)
     (hs : skipOpen r = name ++ after)
     (hn : name ≠ []) (ha : ∀ x ∈ name, isVarChar x = true)
     (hb : ∀ x, after.head? = some x → isVarChar x = false)
     (ih : ∀ acc', seg env (skipClose after) acc' = (substComp env toks').map (acc' ++ ·)) :
     seg env ('$' :: r) acc = (substComp env (Tok.var name :: toks')).map (acc ++ ·) := by
-  rw [seg_dollar, if_neg hr, segVar_eq acc hs hn ha hb]
+  rw [seg_dollar, segVar_eq acc hs hn ha hb]
   simp only [substComp]
   cases env name with
   | none => rfl
@@ -462,7 +467,7 @@ theorem seg_eq_subst_aux (env : Env) : ∀ (n : Nat) (cs : Str), cs.length ≤ n
             have := congrArg List.length hsplit
             simp only [List.length_append, List.length_cons] at this ⊢
             omega
-          refine seg_var_step (after := '}' :: r2) acc (by simp) (by simpa [skipOpen] using hsplit) hn
+          refine seg_var_step (after := '}' :: r2) acc (by simpa [skipOpen] using hsplit) hn
             (fun x hx => isVarChar_of_isNameChar (mem_takeWhile_pos hx))
             (by intro x hx; simp only [List.head?_cons, Option.some.injEq] at hx; subst hx; rfl)
             (fun acc' => ?_)
@@ -497,11 +502,10 @@ theorem seg_eq_subst_aux (env : Env) : ∀ (n : Nat) (cs : Str), cs.length ≤ n
           have haft : Ambiguous (r.dropWhile isNameChar) = false := by
             rw [hsplit, Ambiguous_append_of_not_mem (not_mem_takeWhile_name r)] at har
             exact har
-          have hrne : r ≠ [] := by intro h; subst h; exact hn rfl
           have hlen : (r.dropWhile isNameChar).length < ('$' :: r).length := by
             have := length_dropWhile_le isNameChar r
             simp only [List.length_cons]; omega
-          refine seg_var_step (after := r.dropWhile isNameChar) acc hrne
+          refine seg_var_step (after := r.dropWhile isNameChar) acc
             (by rw [skipOpen, if_neg hb]; exact hsplit) hn
             (fun x hx => isVarChar_of_isNameChar (mem_takeWhile_pos hx))
             (by intro x hx; rw [hhead x hx]; rfl)
@@ -802,9 +806,9 @@ theorem dollarShape {r : Str} (h : Ambiguous ('$' :: r) = false) : DollarShape r
       rw [hsplit, Ambiguous_append_of_not_mem (not_mem_takeWhile_name r)] at har
       exact har
 
-/-! ### malformed components: the code fails too, except for a trailing '$' -/
+/-! ### malformed components: the code fails too (repaired scanner: a trailing '$' included) -/
 
-theorem seg_dollar_var {env : Env} {r name after : Str} (acc : Str) (hr : r ≠ [])
+theorem seg_dollar_var {env : Env} {r name after : Str} (acc : Str)
     (hs : skipOpen r = name ++ after)
     (hn : name ≠ []) (ha : ∀ x ∈ name, isVarChar x = true)
     (hb : ∀ x, after.head? = some x → isVarChar x = false) :
@@ -812,51 +816,28 @@ theorem seg_dollar_var {env : Env} {r name after : Str} (acc : Str) (hr : r ≠ 
       match env name with
       | none => .err .var
       | some v => seg env (skipClose after) (acc ++ v) := by
-  rw [seg_dollar, if_neg hr, segVar_eq acc hs hn ha hb]
+  rw [seg_dollar, segVar_eq acc hs hn ha hb]
   cases env name <;> rfl
-
-theorem head?_of_head?_dropLast {x : Str} {c : Char} (h : x.dropLast.head? = some c) :
-    x.head? = some c := by
-  cases x with
-  | nil => cases h
-  | cons a t =>
-    cases t with
-    | nil => cases h
-    | cons b u => simpa using h
 
 theorem map_eq_none {o : Option (List Tok)} {t : Tok} (h : o.map (t :: ·) = none) : o = none := by
   cases o with
   | none => rfl
   | some x => cases h
 
-/-- the trailing-'$' shape: last character '$', and everything before it well-formed -/
-def Tail (cs : Str) : Prop := cs.getLast? = some '$' ∧ (parseComp cs.dropLast).isSome = true
+/-- a '$' at the very end of a component: empty variable name, `InvalidExpansion` -/
+theorem seg_trailing_dollar (env : Env) (acc : Str) :
+    seg env ['$'] acc = .err .invalidExpansion := by
+  rw [seg_dollar]; rfl
 
-theorem Tail.ne_nil {x : Str} (h : Tail x) : x ≠ [] := by
-  intro e; subst e; cases h.1
+/-- a '$' directly followed by another '$': empty variable name, `InvalidExpansion` -/
+theorem seg_doubled_dollar (env : Env) (r' acc : Str) :
+    seg env ('$' :: '$' :: r') acc = .err .invalidExpansion := by
+  rw [seg_dollar]; rfl
 
-theorem Tail.append {pre x : Str} {t : Tok} (h : Tail x)
-    (hp : ∀ y : Str, (∀ c, x.head? = some c → y.head? = some c ∨ y = []) →
-      parseComp (pre ++ y) = (parseComp y).map (t :: ·)) : Tail (pre ++ x) := by
-  have hne := h.ne_nil
-  refine ⟨?_, ?_⟩
-  · rw [List.getLast?_append, h.1]; rfl
-  · rw [List.dropLast_append_of_ne_nil hne, hp]
-    · cases hq : parseComp x.dropLast with
-      | none => have := h.2; rw [hq] at this; cases this
-      | some v => rfl
-    · intro c hc
-      cases hd : x.dropLast with
-      | nil => exact Or.inr rfl
-      | cons a t =>
-        left
-        have := head?_of_head?_dropLast (x := x) (c := a) (by rw [hd]; rfl)
-        rw [hc] at this
-        rw [this]; rfl
-
+/-- on a malformed component that is not `Ambiguous` the scanner fails -/
 theorem seg_malformed_aux (env : Env) : ∀ (n : Nat) (cs : Str), cs.length ≤ n →
     parseComp cs = none → Ambiguous cs = false → ∀ acc : Str,
-    (∃ k, seg env cs acc = .err k) ∨ Tail cs := by
+    seg env cs acc = .err .invalidExpansion ∨ seg env cs acc = .err .var := by
   intro n
   induction n with
   | zero =>
@@ -875,36 +856,26 @@ theorem seg_malformed_aux (env : Env) : ∀ (n : Nat) (cs : Str), cs.length ≤ 
       cases dollarShape ha with
       | trailing h =>
         subst h
-        exact Or.inr ⟨rfl, rfl⟩
+        exact Or.inl (seg_trailing_dollar env acc)
       | doubled r' h =>
         subst h
-        left
-        refine ⟨.invalidExpansion, ?_⟩
-        rw [seg_dollar, if_neg (by simp)]
-        rfl
+        exact Or.inl (seg_doubled_dollar env r' acc)
       | braced name r2 h hn hnc hamb =>
         subst h
         rw [parseComp_braced_ok hn hnc] at hp
         have hp2 := map_eq_none hp
         have hstep := seg_dollar_var (env := env) (r := '{' :: (name ++ '}' :: r2)) (name := name)
-          (after := '}' :: r2) acc (by simp) (by simp [skipOpen]) hn
+          (after := '}' :: r2) acc (by simp [skipOpen]) hn
           (fun x hx => isVarChar_of_isNameChar (hnc x hx))
           (by intro x hx; simp only [List.head?_cons, Option.some.injEq] at hx; subst hx; rfl)
         rw [hstep]
         cases env name with
-        | none => exact Or.inl ⟨_, rfl⟩
+        | none => exact Or.inr rfl
         | some v =>
           simp only [skipClose, List.head?_cons, if_true, List.tail_cons]
           have hlen : r2.length ≤ n := by
             simp only [List.length_cons, List.length_append] at hl; omega
-          rcases ih r2 hlen hp2 hamb (acc ++ v) with h | h
-          · exact Or.inl h
-          · right
-            have : '$' :: '{' :: (name ++ '}' :: r2) = ('$' :: '{' :: (name ++ ['}'])) ++ r2 := by simp
-            rw [this]
-            refine h.append (t := Tok.var name) (fun y _ => ?_)
-            have : ('$' :: '{' :: (name ++ ['}'])) ++ y = '$' :: '{' :: (name ++ '}' :: y) := by simp
-            rw [this, parseComp_braced_ok hn hnc]
+          exact ih r2 hlen hp2 hamb (acc ++ v)
       | plain name after h hn hnc hx hamb =>
         subst h
         have hx' : ∀ c, after.head? = some c → isNameChar c = false := by
@@ -919,12 +890,12 @@ theorem seg_malformed_aux (env : Env) : ∀ (n : Nat) (cs : Str), cs.length ≤ 
             simp only [List.cons_append, List.head?_cons, ne_eq, Option.some.injEq]
             intro e; subst e; cases this
         have hstep := seg_dollar_var (env := env) (r := name ++ after) (name := name)
-          (after := after) acc (by simpa using fun h _ => hn h) (by rw [skipOpen, if_neg hb]) hn
+          (after := after) acc (by rw [skipOpen, if_neg hb]) hn
           (fun x hx => isVarChar_of_isNameChar (hnc x hx))
           (by intro x hc; rw [hx x hc]; rfl)
         rw [hstep]
         cases env name with
-        | none => exact Or.inl ⟨_, rfl⟩
+        | none => exact Or.inr rfl
         | some v =>
           have hcl : skipClose after = after := by
             rw [skipClose, if_neg]
@@ -932,22 +903,7 @@ theorem seg_malformed_aux (env : Env) : ∀ (n : Nat) (cs : Str), cs.length ≤ 
           simp only [hcl]
           have hlen : after.length ≤ n := by
             simp only [List.length_append] at hl; omega
-          rcases ih after hlen hp2 hamb (acc ++ v) with h | h
-          · exact Or.inl h
-          · right
-            have : '$' :: (name ++ after) = ('$' :: name) ++ after := by simp
-            rw [this]
-            refine h.append (t := Tok.var name) (fun y hy => ?_)
-            rw [List.cons_append, parseComp_plain_ok hn hnc]
-            intro c hc
-            have hne := h.ne_nil
-            cases after with
-            | nil => exact absurd rfl hne
-            | cons a t =>
-              have ha' := hx a rfl
-              rcases hy a rfl with h1 | h1
-              · rw [h1] at hc; injection hc with hc; subst hc; subst ha'; rfl
-              · subst h1; cases hc
+          exact ih after hlen hp2 hamb (acc ++ v)
     · -- literal prefix
       rw [parseComp_lit hc] at hp
       have hp2 := map_eq_none hp
@@ -955,90 +911,108 @@ theorem seg_malformed_aux (env : Env) : ∀ (n : Nat) (cs : Str), cs.length ≤ 
         length_dropWhile_lt (by simpa using hc)
       simp only [List.length_cons] at hlen
       rw [seg_lit]
-      rcases ih _ (by omega) hp2 (by rw [Ambiguous_dropWhile]; exact ha)
-        (acc ++ (c :: r).takeWhile (· ≠ '$')) with h | h
-      · exact Or.inl h
-      · right
-        have hsplit := List.takeWhile_append_dropWhile (p := (· ≠ '$')) (l := c :: r)
-        rw [← hsplit]
-        have hlit : (c :: r).takeWhile (· ≠ '$') ≠ [] := by
-          rw [List.takeWhile_cons_of_pos (by simpa using hc)]; simp
-        refine h.append (t := Tok.lit ((c :: r).takeWhile (· ≠ '$'))) (fun y hy => ?_)
-        refine parseComp_append_lit hlit (not_mem_takeWhile_ne _) ?_
-        intro x hx
-        have hne := h.ne_nil
-        cases hd : (c :: r).dropWhile (· ≠ '$') with
-        | nil => exact absurd hd hne
-        | cons a t =>
-          have ha' : a = '$' := by simpa using dropWhile_cons_head hd
-          rcases hy a (by rw [hd]; rfl) with h1 | h1
-          · rw [h1] at hx; injection hx with hx; rw [← hx, ha']
-          · subst h1; cases hx
+      exact ih _ (by omega) hp2 (by rw [Ambiguous_dropWhile]; exact ha)
+        (acc ++ (c :: r).takeWhile (· ≠ '$'))
 
-/-! ### the wider domain `DErr`: agreement up to the error kind -/
+theorem seg_malformed (env : Env) {cs : Str} (hp : parseComp cs = none)
+    (ha : Ambiguous cs = false) (acc : Str) :
+    seg env cs acc = .err .invalidExpansion ∨ seg env cs acc = .err .var :=
+  seg_malformed_aux env cs.length cs (Nat.le_refl _) hp ha acc
+
+/-- a component whose only '$' is its last character: empty variable name -/
+theorem seg_lit_trailing_dollar (env : Env) {pre : Str} (hp : '$' ∉ pre) (acc : Str) :
+    seg env (pre ++ ['$']) acc = .err .invalidExpansion := by
+  obtain ⟨h1, h2⟩ := takeWhile_dropWhile_split (p := (· ≠ '$')) (a := pre) (b := ['$'])
+    (fun y hy => by
+      have : y ≠ '$' := fun e => hp (e ▸ hy)
+      simpa using this)
+    (fun y hy => by
+      simp only [List.head?_cons, Option.some.injEq] at hy; subst hy; rfl)
+  rw [seg_lit, h1, h2, seg_trailing_dollar]
+
+/-! ### the domain of the error characterisation: everything the specification specifies
+
+  `Spec.Ambiguous` components are declared unspecified by `Spec/Expand.lean`; `DSpec` is the
+  (decidable) set of inputs none of whose normal components is `Ambiguous`.  Malformed components
+  (`$$`, `a$$b`, `a$`) are inside.  `Spec.D ⊆ Spec.DErr ⊆ DSpec`. -/
+
+/-- the component is not in the unspecified class -/
+def compUnamb : Comp → Bool
+  | .normal y => !Ambiguous y
+  | _ => true
+
+/-- no normal component of the tilde-expanded path is `Ambiguous` (vacuously true when the tilde
+    stage already fails) -/
+def DSpec (env : Env) (s : Str) : Bool :=
+  match tildeSpec env s with
+  | .ok p => (components p).all compUnamb
+  | _ => true
 
 /-- the two outcomes are equal, or both are errors (possibly of different kinds) -/
 def AgreeUpToKind {α} (a b : Outcome α) : Prop := a = b ∨ ((∃ k, a = .err k) ∧ ∃ k, b = .err k)
 
 theorem AgreeUpToKind.rfl' {α} (a : Outcome α) : AgreeUpToKind a a := Or.inl rfl
 
-theorem compOut_agree (env : Env) {c : Comp} (h : compSpecified c = true) :
-    AgreeUpToKind (compOut env c) (expandCompSpec env c) := by
+/-- the sharp form: equal, or the code says `Var` where the specification says
+    `InvalidExpansion` (a malformed component in which an unset variable is met first) -/
+def AgreeSharp {α} (a b : Outcome α) : Prop :=
+  a = b ∨ (a = .err .var ∧ b = .err .invalidExpansion)
+
+theorem AgreeSharp.weaken {α} {a b : Outcome α} (h : AgreeSharp a b) : AgreeUpToKind a b := by
+  rcases h with h | ⟨h1, h2⟩
+  · exact Or.inl h
+  · exact Or.inr ⟨⟨_, h1⟩, ⟨_, h2⟩⟩
+
+theorem compOut_agree (env : Env) {c : Comp} (h : compUnamb c = true) :
+    AgreeSharp (compOut env c) (expandCompSpec env c) := by
   cases c with
   | normal y =>
-    simp only [compSpecified, Bool.and_eq_true, Bool.not_eq_true'] at h
-    obtain ⟨ha, htd⟩ := h
+    simp only [compUnamb, Bool.not_eq_true'] at h
     cases hp : parseComp y with
     | some toks =>
       left
       simp only [compOut, expandCompSpec, hp]
-      rw [seg_eq_subst env hp ha, map_nil_append]
+      rw [seg_eq_subst env hp h, map_nil_append]
     | none =>
-      right
       simp only [compOut, expandCompSpec, hp]
-      refine ⟨?_, _, rfl⟩
-      rcases seg_malformed_aux env y.length y (Nat.le_refl _) hp ha [] with h | h
-      · exact h
-      · exfalso
-        have : TrailingDollar y = true := by
-          simp only [TrailingDollar, hp, Option.isNone_none, Bool.true_and, Bool.and_eq_true,
-            decide_eq_true_eq]
-          exact h
-        rw [this] at htd; cases htd
+      rcases seg_malformed env hp h [] with h1 | h1
+      · exact Or.inl h1
+      · exact Or.inr ⟨h1, rfl⟩
   | root => exact Or.inl rfl
   | cur => exact Or.inl rfl
   | parent => exact Or.inl rfl
 
 theorem allO_agree {f g : Comp → Outcome Str} {cs : List Comp}
-    (h : ∀ c ∈ cs, AgreeUpToKind (f c) (g c)) : AgreeUpToKind (allO f cs) (allO g cs) := by
+    (h : ∀ c ∈ cs, AgreeSharp (f c) (g c)) : AgreeSharp (allO f cs) (allO g cs) := by
   induction cs with
   | nil => exact Or.inl rfl
   | cons c cs ih =>
     simp only [allO]
-    rcases h c List.mem_cons_self with h1 | ⟨⟨k1, h1⟩, ⟨k2, h2⟩⟩
+    rcases h c List.mem_cons_self with h1 | ⟨h1, h2⟩
     · rw [h1]
       cases g c with
       | ok x =>
         simp only [Outcome.bind]
-        rcases ih (fun c hc => h c (List.mem_cons_of_mem _ hc)) with h2 | ⟨⟨k1, h2⟩, ⟨k2, h3⟩⟩
+        rcases ih (fun c hc => h c (List.mem_cons_of_mem _ hc)) with h2 | ⟨h2, h3⟩
         · rw [h2]; exact Or.inl rfl
-        · rw [h2, h3]; exact Or.inr ⟨⟨k1, rfl⟩, ⟨k2, rfl⟩⟩
+        · rw [h2, h3]; exact Or.inr ⟨rfl, rfl⟩
       | err k => exact Or.inl rfl
       | panic => exact Or.inl rfl
       | hang => exact Or.inl rfl
-    · rw [h1, h2]; exact Or.inr ⟨⟨k1, rfl⟩, ⟨k2, rfl⟩⟩
+    · rw [h1, h2]; exact Or.inr ⟨rfl, rfl⟩
 
-theorem AgreeUpToKind.map {α β} {a b : Outcome α} (f : α → β) (h : AgreeUpToKind a b) :
-    AgreeUpToKind (a.map f) (b.map f) := by
-  rcases h with h | ⟨⟨k1, h1⟩, ⟨k2, h2⟩⟩
+theorem AgreeSharp.map {α β} {a b : Outcome α} (f : α → β) (h : AgreeSharp a b) :
+    AgreeSharp (a.map f) (b.map f) := by
+  rcases h with h | ⟨h1, h2⟩
   · rw [h]; exact Or.inl rfl
-  · rw [h1, h2]; exact Or.inr ⟨⟨k1, rfl⟩, ⟨k2, rfl⟩⟩
+  · rw [h1, h2]; exact Or.inr ⟨rfl, rfl⟩
 
-theorem expand_agree_of_DErr (env : Env) (s : Str) (h : DErr env s = true) :
-    AgreeUpToKind (expand env s) (expandSpec env s) := by
+/-- in `DSpec` the code computes the specification, up to `Var` reported for `InvalidExpansion` -/
+theorem expand_sharp_of_DSpec (env : Env) (s : Str) (h : DSpec env s = true) :
+    AgreeSharp (expand env s) (expandSpec env s) := by
   rw [expand_eq, stage1_eq_tildeSpec]
   unfold expandSpec
-  unfold DErr at h
+  unfold DSpec at h
   cases ht : tildeSpec env s with
   | ok p =>
     rw [ht] at h
@@ -1051,6 +1025,10 @@ theorem expand_agree_of_DErr (env : Env) (s : Str) (h : DErr env s = true) :
   | err k => exact Or.inl rfl
   | panic => exact Or.inl rfl
   | hang => exact Or.inl rfl
+
+theorem expand_agree_of_DSpec (env : Env) (s : Str) (h : DSpec env s = true) :
+    AgreeUpToKind (expand env s) (expandSpec env s) :=
+  (expand_sharp_of_DSpec env s h).weaken
 
 theorem AgreeUpToKind.err_iff {α} {a b : Outcome α} (h : AgreeUpToKind a b) :
     (∃ k, a = .err k) ↔ ∃ k, b = .err k := by
@@ -1081,6 +1059,34 @@ theorem DErr_of_D {env : Env} {s : Str} (h : D env s = true) : DErr env s = true
   | err k => rfl
   | panic => rfl
   | hang => rfl
+
+/-- `DErr ⊆ DSpec` (`DErr` additionally excluded the trailing-'$' class of the unrepaired code) -/
+theorem DSpec_of_DErr {env : Env} {s : Str} (h : DErr env s = true) : DSpec env s = true := by
+  unfold DErr at h
+  unfold DSpec
+  cases ht : tildeSpec env s with
+  | ok p =>
+    rw [ht] at h
+    simp only [List.all_eq_true] at h ⊢
+    intro c hc
+    have := h c hc
+    cases c with
+    | normal y =>
+      simp only [compSpecified, Bool.and_eq_true, Bool.not_eq_true'] at this
+      simp only [compUnamb, Bool.not_eq_true', this.1]
+    | root => rfl
+    | cur => rfl
+    | parent => rfl
+  | err k => rfl
+  | panic => rfl
+  | hang => rfl
+
+theorem DSpec_of_D {env : Env} {s : Str} (h : D env s = true) : DSpec env s = true :=
+  DSpec_of_DErr (DErr_of_D h)
+
+theorem expand_agree_of_DErr (env : Env) (s : Str) (h : DErr env s = true) :
+    AgreeUpToKind (expand env s) (expandSpec env s) :=
+  expand_agree_of_DSpec env s (DSpec_of_DErr h)
 
 /-! ### the tilde stage of the specification -/
 
